@@ -71,5 +71,7 @@ def model_key(events):
     """stack of open block kinds + the kind/doc of the last event (adjacency context)"""
     st, kinds, inner = context(events)
     last = events[-1] if events else {}
-    fixed = tuple(sorted({ev["name"] for ev in events if "name" in ev}))    # twins: 'defined before' is part of the state
+    # twins: how often (0, 1, 2+) each fixed name was already defined is part of the state
+    names = [ev["name"] for ev in events if "name" in ev]
+    fixed = tuple(sorted((n, min(names.count(n), 2)) for n in set(names)))
     return (tuple(kinds), last.get("k"), last.get("doc", 0), last.get("impl"), fixed)
